@@ -5,6 +5,7 @@ its fork points; running the obligation again with a longer decision prefix reac
 Nothing is copied, so real (concrete) objects can be used freely as long as the obligation builds
 its inputs afresh on every run.
 """
+import os
 import time
 import z3
 
@@ -12,6 +13,31 @@ from .sym import (Sym, SInt, SBool, SReal, SStr, SBytes, SOpaque, PathAbort, Uns
                   EngineSignal, as_z3_bool)
 
 QUERY_TIMEOUT_MS = 10000
+
+
+def _scan(e):
+    """(has quantifier, has string/sequence term) for a formula; bounded walk."""
+    stack = [e]
+    n = 0
+    quant = seq = False
+    while stack and n < 3000:
+        x = stack.pop()
+        n += 1
+        if z3.is_quantifier(x):
+            quant = True
+            continue
+        if z3.is_app(x):
+            try:
+                if x.sort().kind() in (z3.Z3_SEQ_SORT, z3.Z3_RE_SORT):
+                    seq = True
+            except z3.Z3Exception:
+                pass
+            stack.extend(x.children())
+    return quant, seq
+
+
+def _has_quantifier(e):
+    return _scan(e)[0]
 
 
 class Refuted(object):
@@ -31,7 +57,13 @@ class Path(object):
         self.worklist = worklist
         self.decisions = []
         self.solver = z3.Solver()
-        self.solver.set('timeout', min(timeout_ms, 3000))   # feasibility only; unknown counts as feasible
+        # incremental attempt bounded by a deterministic resource limit (not wall time: verdicts must not depend on
+        # machine load); a fresh solver decides what it leaves open
+        self.solver.set('rlimit', 150000)
+        self.solver.set('timeout', 60000)
+        self.full_timeout_ms = timeout_ms
+        self.has_quant = False
+        self.has_seq = False
         self.pc = []
         self.stats = stats
         self.names = {}
@@ -91,8 +123,23 @@ class Path(object):
     def _sat(self, *extra):
         t0 = time.time()
         r = self.solver.check(*extra)
+        if r == z3.unknown and not self.has_quant and not self.has_seq and not any(_scan(e)[1] for e in extra):
+            # (for string constraints z3 needs seconds to build long witnesses: an unknown there simply keeps the
+            # branch, which is sound)
+            # the incremental core gave up: ask a fresh (non-incremental) solver, which runs the full tactic
+            s2 = z3.Solver()
+            s2.set('rlimit', 60000000)
+            s2.set('timeout', max(self.full_timeout_ms, 60000))
+            for c_ in self.pc:
+                s2.add(c_)
+            for e in extra:
+                s2.add(e)
+            r = s2.check()
         self.stats['queries'] += 1
-        self.stats['solver_s'] += time.time() - t0
+        d = time.time() - t0
+        self.stats['solver_s'] += d
+        if d > 1.0 and os.environ.get('PYVC_SLOW'):
+            print("SLOW feasibility query %.1fs -> %s: %s   [pc size %d]" % (d, r, str(extra)[:300], len(self.pc)))
         return r
 
     def branch(self, cond):
@@ -129,6 +176,8 @@ class Path(object):
                 raise PathAbort("infeasible")
         self.decisions.append(('b', val))
         c = cond if val else z3.Not(cond)
+        if not self.has_seq:
+            self.has_seq = _scan(c)[1]
         self.pc.append(c)
         self.solver.add(c)
         return val
@@ -159,6 +208,10 @@ class Path(object):
                 raise PathAbort("assume False")
             return
         c = as_z3_bool(cond)
+        if not (self.has_quant and self.has_seq):
+            q_, s_ = _scan(c)
+            self.has_quant = self.has_quant or q_
+            self.has_seq = self.has_seq or s_
         self.pc.append(c)
         self.solver.add(c)
         if len(self.decisions) >= len(self.prefix):
